@@ -75,6 +75,7 @@ class FnSpec:
     fuel: bool = False                 # the function loops / recurses (explicit fuel parameter)
     draws: int = 0                     # number of random draws (each a carrier-typed parameter, in evaluation order)
     expr_shapes: dict = field(default_factory=dict)  # normalised source of an expression -> handler name
+    expr_matchers: list = field(default_factory=list)  # [(matcher(e, env), handler(tr, e, env, k))] recognised expression shapes
     stmt_shapes: list = field(default_factory=list)  # [(matcher, handler)] recognised statement shapes
     prefix: str = ""                   # section arguments a caller outside the section must supply, e.g. "(c_add C)"
     start_after: str | None = None     # translate only the statements after the one whose source contains this marker
@@ -269,6 +270,8 @@ class FnTranslator:
             return "T"
         if s == "bool":
             return "bool"
+        if s in ("List[int]", "list[int]"):
+            return ("list", "Z")
         self.bad(node, f"parameter `{name}`: annotation `{s}` is outside the subset")
 
     def const_T(self, v, node):
@@ -293,6 +296,9 @@ class FnTranslator:
         sh = self.spec.expr_shapes.get(norm_src(e))
         if sh is not None:
             return self.expr_shape(sh, e, env, k)
+        for matcher, handler in self.spec.expr_matchers:
+            if matcher(e, env):
+                return handler(self, e, env, k)
         m = getattr(self, "e_" + type(e).__name__, None)
         if m is None:
             self.bad(e, f"expression node {type(e).__name__} is outside the subset")
@@ -381,6 +387,11 @@ class FnTranslator:
         self.bad(node, f"operands of types {lt} and {rt}: mixed arithmetic on non-literals is not modelled")
 
     def binop(self, op, le, lc, lt, re_, rc, rt, node, k):
+        # <int-valued expression> * 0.25 : the exact rational x/4, kept as its numerator (type ('quarter',));
+        # the only thing that can be done with it is int(): truncation toward zero
+        if isinstance(op, ast.Mult) and lt == "Z" and isinstance(re_, ast.Constant) and isinstance(re_.value, float) \
+                and re_.value == 0.25:
+            return k(lc, ("quarter",))
         lc, rc, t = self.unify_num(le, lc, lt, re_, rc, rt, node)
         if t == "Z":
             if isinstance(op, ast.Add):
@@ -407,6 +418,11 @@ class FnTranslator:
         self.bad(node, f"arithmetic on operands of type {t}")
 
     def e_BinOp(self, e, env, k):
+        if isinstance(e.op, ast.Mult) and isinstance(e.right, ast.Constant) and isinstance(e.right.value, float) \
+                and e.right.value == 0.25:
+            return self.expr(e.left, env, lambda lc, lt: self.binop(e.op, e.left, lc, lt, e.right, None, None, e, k)
+                             if lt == "Z" else self.expr(e.right, env, lambda rc, rt: self.binop(
+                                 e.op, e.left, lc, lt, e.right, rc, rt, e, k)))
         return self.expr(e.left, env, lambda lc, lt: self.expr(
             e.right, env, lambda rc, rt: self.binop(e.op, e.left, lc, lt, e.right, rc, rt, e, k)))
 
@@ -581,6 +597,7 @@ class FnTranslator:
                                  else self.bad(e, f"len of a value of type {t}"))
             if f.id == "int" and len(e.args) == 1:
                 return self.expr(e.args[0], env, lambda c, t: k(c, "Z") if t == "Z"
+                                 else k(f"Z.quot {par(c)} 4", "Z") if t == ("quarter",)
                                  else k(f"{self.op_T('trunc', e)} {par(c)}", "T") if t == "T"
                                  else self.bad(e, f"int() of a value of type {t}"))
             if f.id == "float" and len(e.args) == 1:
@@ -684,6 +701,9 @@ class FnTranslator:
                         tgt(t)
                 elif isinstance(s, (ast.AugAssign, ast.AnnAssign)):
                     tgt(s.target)
+                elif (isinstance(s, ast.Expr) and isinstance(s.value, ast.Call) and isinstance(s.value.func, ast.Attribute)
+                      and s.value.func.attr == "append" and isinstance(s.value.func.value, ast.Name)):
+                    add(s.value.func.value.id)
                 elif isinstance(s, ast.If):
                     walk(s.body)
                     walk(s.orelse)
@@ -727,9 +747,7 @@ class FnTranslator:
             if env[name][1] != typ:
                 self.bad(node, f"self.{attr} has declared type {env[name][1]}, assigned a value of type {typ}")
             return env, env[name][0]
-        if name in env and env[name][1] != typ:
-            self.bad(node, f"local `{name}` changes type from {env[name][1]} to {typ}")
-        env[name] = ("v_" + name, typ)
+        env[name] = ("v_" + name, typ)     # a local may be re-bound at another type (loop states / joins are checked)
         return env, "v_" + name
 
     def target_name(self, t, node):
@@ -749,6 +767,17 @@ class FnTranslator:
             return self.expr(value_expr, env, lambda vc, vt: self.expr(
                 target.slice, env, lambda ic, it: self._store(lname, ic, it, vc, vt, node, rest, env, ctx)))
         name = self.target_name(target, node)
+        if isinstance(value_expr, ast.List) and not value_expr.elts:
+            t = self.spec.params.get(name)
+            if not is_list(t):
+                self.bad(node, f"empty list assigned to `{name}`, whose element type is not declared")
+            env2, cn = self.bind_var(name, env, t, node)
+            return let_(cn, Term("nil", True), self.block(rest, env2, ctx))
+        if isinstance(value_expr, (ast.Name, ast.Attribute)):
+            probe = []
+            self.expr(value_expr, env, lambda c, t: (probe.append(t), Term(c, True))[1])
+            if probe and is_list(probe[0]):
+                self.bad(node, "a second name for a list (aliasing of mutable lists is not modelled)")
 
         def bound(c, t):
             if isinstance(t, tuple) and t[0] == "tuple":
@@ -779,7 +808,19 @@ class FnTranslator:
             self.bad(s, "chained assignment")
         t = s.targets[0]
         if isinstance(t, (ast.Tuple, ast.List)):
-            self.bad(s, "tuple unpacking assignment")
+            v = s.value
+            if (len(t.elts) == 2 and all(isinstance(x, ast.Name) for x in t.elts) and isinstance(v, ast.Subscript)
+                    and isinstance(v.slice, ast.Slice) and v.slice.upper is None and v.slice.step is None
+                    and v.slice.lower is not None and ast.unparse(v.slice.lower) == "-2"):
+                # a, b = l[-2:]
+                def got(lc, lt):
+                    if not is_list(lt):
+                        self.bad(s, f"slice of a value of type {lt}")
+                    env2, ca = self.bind_var(t.elts[0].id, env, lt[1], s)
+                    env2, cb = self.bind_var(t.elts[1].id, env2, lt[1], s)
+                    return let_(f"'({ca}, {cb})", Term(f"zlast2 {par(lc)}", False), self.block(rest, env2, ctx))
+                return self.expr(v.value, env, got)
+            self.bad(s, "tuple unpacking assignment (only `a, b = l[-2:]` is translated)")
         return self.assign(t, s.value, s, rest, env, ctx)
 
     def s_AnnAssign(self, s, rest, env, ctx):
@@ -808,6 +849,19 @@ class FnTranslator:
     def s_Expr(self, s, rest, env, ctx):
         if isinstance(s.value, ast.Constant) and isinstance(s.value.value, str):
             return self.block(rest, env, ctx)      # docstring
+        c = s.value
+        if (isinstance(c, ast.Call) and isinstance(c.func, ast.Attribute) and c.func.attr == "append"
+                and isinstance(c.func.value, ast.Name) and len(c.args) == 1 and not c.keywords):
+            lname = c.func.value.id
+            if lname not in env or not is_list(env[lname][1]):
+                self.bad(s, f".append on `{lname}`, which is not a list local")
+
+            def app(vc, vt):
+                if vt != env[lname][1][1]:
+                    self.bad(s, f".append of a {vt} to {env[lname][1]}")
+                env2, cn = self.bind_var(lname, env, env[lname][1], s)
+                return let_(cn, Term(f"{env[lname][0]} ++ [{vc}]", True), self.block(rest, env2, ctx))
+            return self.expr(c.args[0], env, app)
         self.bad(s, "expression statement (a call for its side effect) is outside the subset")
 
     def s_Pass(self, s, rest, env, ctx):
@@ -909,9 +963,29 @@ class FnTranslator:
         if s.orelse:
             self.bad(s, "for ... else")
         it = s.iter
+        if (isinstance(it, ast.Call) and isinstance(it.func, ast.Name) and it.func.id == "enumerate"
+                and len(it.args) == 1 and not it.keywords and isinstance(it.args[0], ast.Name)
+                and isinstance(s.target, ast.Tuple) and len(s.target.elts) == 2
+                and all(isinstance(x, ast.Name) for x in s.target.elts)):
+            # for i, x in enumerate(L)  ==  for i in range(len(L)): x = L[i]   provided the body does not assign L
+            seq, ivar, xvar = it.args[0], s.target.elts[0], s.target.elts[1]
+            if seq.id in self.may_assign(list(s.body)):
+                self.bad(s, "the sequence of an enumerate loop is modified in the loop")
+            used = any(isinstance(n, ast.Name) and n.id == xvar.id for st in s.body for n in ast.walk(st))
+            pre = [] if not used else [ast.copy_location(ast.Assign(
+                targets=[ast.Name(id=xvar.id, ctx=ast.Store())],
+                value=ast.Subscript(value=ast.Name(id=seq.id, ctx=ast.Load()), slice=ast.Name(id=ivar.id, ctx=ast.Load()),
+                                    ctx=ast.Load())), s)]
+            new = ast.copy_location(ast.For(
+                target=ast.Name(id=ivar.id, ctx=ast.Store()),
+                iter=ast.Call(func=ast.Name(id="range", ctx=ast.Load()),
+                              args=[ast.Call(func=ast.Name(id="len", ctx=ast.Load()), args=[seq], keywords=[])], keywords=[]),
+                body=pre + list(s.body), orelse=[]), s)
+            ast.fix_missing_locations(new)
+            return self.s_For(new, rest, env, ctx)
         if not (isinstance(it, ast.Call) and isinstance(it.func, ast.Name) and it.func.id == "range"
                 and 1 <= len(it.args) <= 2 and not it.keywords and isinstance(s.target, ast.Name)):
-            self.bad(s, "for loop other than `for <name> in range(a[, b])`")
+            self.bad(s, "for loop other than `for <name> in range(a[, b])` / `for <i>, <x> in enumerate(<list>)`")
         for n in ast.walk(s):
             if isinstance(n, ast.Return):
                 self.bad(n, "return inside a loop")
@@ -1165,6 +1239,98 @@ CLIENTS["C11"] = Client(
                         theorem="C11_translated_retrieve_is_model"),
              ]),
     ])
+
+
+# ---- C09: ReplayBuffer.add -------------------------------------------------------------------------
+def stmt_like(template: str):
+    """matcher: the statement equals the template up to a consistent renaming of locals (comments, layout and
+    docstrings do not matter: the comparison is on the AST)"""
+    want = alpha_dump(ast.parse(template.strip("\n")).body[0])
+    return lambda s: alpha_dump(s) == want
+
+
+def skip_stmt(tr, s, rest, env, ctx):
+    return tr.block(rest, env, ctx)
+
+
+def is_rows_shape0(e, env):
+    return (isinstance(e, ast.Subscript) and isinstance(e.slice, ast.Constant) and e.slice.value == 0
+            and isinstance(e.value, ast.Attribute) and e.value.attr == "shape" and isinstance(e.value.value, ast.Name)
+            and e.value.value.id in env and is_list(env[e.value.value.id][1]))
+
+
+def rows_shape0(tr, e, env, k):
+    return k(f"zlen {env[e.value.value.id][0]}", "Z")
+
+
+ROWS = ("list", ("opaque", "A"))
+# statements of ReplayBuffer.add that are ABSTRACTED (trusted shape table, see design.d/TR.md): they move the batch to
+# the buffer's device, give 1-D fields a trailing unit axis and allocate the storage on first use; none of them changes
+# the number, the order or the identity of the rows of `data`, nor the cursor / size arithmetic.
+C09_ADD_SKIPPED = [
+    "data = data.to(self.device)",
+    """
+for key, value in data.items():
+    if is_tensor_collection(value):
+        value: TensorDictBase = value
+        for k, v in value.items():
+            if v.ndim == 1:
+                value[k] = v.reshape(_n_transitions, 1)
+    else:
+        if value.ndim == 1:
+            value = value.reshape(_n_transitions, 1)
+
+    data[key] = value
+""",
+    """
+if self._storage is None:
+    self._init(data)
+""",
+]
+
+CLIENTS["C09"] = Client(
+    pid="C09",
+    imports="From Coq Require Import List ZArith Bool.\nFrom AgileV Require Import TR.PyLib.",
+    equiv="coq/gen/C09_equiv.v",
+    units=[Unit(
+        file="agilerl/components/replay_buffer.py", section="GenReplayBuffer",
+        context="Context {A : Type}.", carrier=Carrier(T="unit"),
+        functions=[FnSpec(
+            cls="ReplayBuffer", name="add", coq="ReplayBuffer_add",
+            fields=[("max_size", "Z"), ("_cursor", "Z"), ("_size", "Z"), ("counter", "Z"), ("_storage", ROWS)],
+            writes=["_storage", "_cursor", "_size", "counter"], returns=None, params={"data": ROWS},
+            expr_matchers=[(is_rows_shape0, rows_shape0)],
+            stmt_shapes=[(stmt_like(t), skip_stmt) for t in C09_ADD_SKIPPED],
+            theorem="C09_translated_add_is_model")])])
+
+
+# ---- C03: calc_max_kernel_sizes --------------------------------------------------------------------
+def is_np_floor_div(e, env):
+    return (isinstance(e, ast.Call) and ast.unparse(e.func) == "np.floor" and len(e.args) == 1 and not e.keywords
+            and isinstance(e.args[0], ast.BinOp) and isinstance(e.args[0].op, ast.Div))
+
+
+def np_floor_div(tr, e, env, k):
+    """np.floor(a / b) on int-valued operands (Python ints or the int-valued float64 a previous np.floor produced):
+    read as floor division on Z — exact while |a|, |b| < 2^26 (binary64 division of such integers, then floor, is the
+    floor of the exact quotient); b = 0 is reported as ZeroDivisionError (numpy would produce inf/nan or raise)."""
+    d = e.args[0]
+    return tr.expr(d.left, env, lambda ac, at: tr.expr(d.right, env, lambda bc, bt: (
+        tr.hoist(e, f"zfloordiv {par(ac)} {par(bc)}", "Z", k) if at == "Z" and bt == "Z"
+        else tr.bad(e, f"np.floor(a / b) on operands of types {at}, {bt}"))))
+
+
+CLIENTS["C03"] = Client(
+    pid="C03",
+    imports="From Coq Require Import List ZArith Bool.\nImport ListNotations.\nFrom AgileV Require Import TR.PyLib.",
+    equiv="coq/gen/C03_equiv.v",
+    units=[Unit(
+        file="agilerl/utils/evolvable_networks.py", section="GenCnnArith", context="", carrier=Carrier(T="unit"),
+        functions=[FnSpec(
+            cls=None, name="calc_max_kernel_sizes", coq="calc_max_kernel_sizes",
+            returns=("list", "Z"), params={"max_kernel_list": ("list", "Z")},
+            expr_matchers=[(is_np_floor_div, np_floor_div)],
+            theorem="C03_translated_calc_max_kernel_sizes_is_model")])])
 
 
 def translate_pid(pid: str, repo: Path):
